@@ -169,6 +169,17 @@ CHECKS = {
             "destinations/scratch, overhang/touching/support-tie scenes.",
             TB + "the specification is our formal reading of the docstrings.",
             "Lean 4 proof (refinement model = documented rule; window = rows of a bin) + correspondence over decode histories", "6/C14"),
+    "C17": ("proof",
+            "15 Lean theorems, for ARBITRARY int-truncation oracles (hence all real vectors of every admissible length): phase 1 terminates; "
+            "the decoded instance is valid, has the template's W/H/n_items, is packable into exactly min_bins bins (explicit guillotine "
+            "layout carried as ghost fields -> Pack.Feasible), keeps total area in ((k-1)WH, kWH] through the slack phase (needs fix "
+            "501ce37), ceil(area/WH) = min_bins, and - combined with C03's full lower-bound theorem - lower_bound_bins = min_bins; decoding "
+            "is a function of the vector; Errors in [0,1] and 0 for the template; hardness clamps in [0,1]. The two float->int uses "
+            "int(k*x) are tied to the code by an exact binary64 multiply-truncate model checked on +-1, +-0, nextafter neighbours etc.",
+            TB + "numpy shuffle is an arbitrary permutation parameter (recomputed by the harness for exact order comparison); Hardness "
+            "optimisation runs are sampled tests; templates > 1e8 items carry a guard.",
+            "Lean 4 proof (guillotine-cut invariants with explicit layout) + correspondence with an exact binary64 model", "6/C17",
+            ["Props.C17LB"]),
 }
 NOT_YET = "check not built yet (work in progress; see DESIGN.md section 6)"
 
